@@ -23,7 +23,7 @@ def abs_state(opf):
     key = [k for k, f in d.DISTANCES.items() if f is opf.distance_fn]
     nodes = []
     for nd in sg.nodes:
-        nodes.append((int(nd.idx), int(nd.label), int(nd.predicted_label), int(nd.cluster_label), np.asarray(nd.features).tobytes(),
+        nodes.append((int(nd.idx), int(nd.label), int(nd.predicted_label), int(nd.cluster_label), str(np.asarray(nd.features).dtype), np.asarray(nd.features).tobytes(),
                       fbits(nd.cost), fbits(nd.density), fbits(nd.radius), int(nd.n_plateaus), tuple(int(a) for a in nd.adjacency),
                       int(nd.root), int(nd.status), int(nd.pred), int(nd.relevant)))
     st = dict(cls=type(opf).__name__, distance=opf.distance, distance_fn=key, pre=opf.pre_computed_distance,
@@ -73,6 +73,9 @@ def main(tier, seed):
                 X = np.array([[rng.uniform(0.05, 5) for _ in range(dim)] for _ in range(n + 5)])
                 if dom == "prob":
                     X = X / X.sum(axis=1, keepdims=True)
+                elif rng.random() < 0.3:
+                    X = X.astype(np.float32)     # single-precision features: dtype and values must survive the round trip
+                    stats["float32"] = stats.get("float32", 0) + 1
                 Y = np.array([j % 2 for j in range(n)])
                 Xq, Yq = X[n:], np.array([0, 1, 0, 1, 0])
                 desc = dict(model=kname, metric=metric, precomputed=pre, X=X.tolist(), Y=Y.tolist())
@@ -107,6 +110,11 @@ def main(tier, seed):
                 except (ZeroDivisionError, IndexError, FloatingPointError):
                     stats["skipped"] += 1
                     continue
+                except Exception as ex:
+                    if X.dtype == np.float32 and type(ex).__name__ == "TypeError":
+                        stats["float32_rejected"] = stats.get("float32_rejected", 0) + 1   # Node.cost refuses numpy float32 scalars
+                        continue
+                    raise
                 a0 = abs_state(m)
                 if any(v != v for nd in m.subgraph.nodes for v in (nd.cost, nd.density)):
                     stats["skipped"] += 1
